@@ -1,1 +1,133 @@
-From Oras Require Import Base.Prelude Proofs.CredFile.
+(* C18 -- The credentials file store round-trips secrets and never damages the
+   config file.  Only statements closed by [exact]; lemmas live in
+   Proofs/CredFile.v, Proofs/CredSave.v, Proofs/CredConc.v, Proofs/Base64.v.
+   base64 is a parameter [enc]/[dec] with the two stated hypotheses; both are
+   proved for the concrete RFC 4648 codec of Model/Base64.v (theorems C18_base64_...). *)
+From Oras Require Import Base.Prelude Base.FlatFS Generated.GC18
+  Model.Base64 Model.CredFile Model.CredSave Proofs.CredFile Proofs.CredSave.
+
+(* Put then Get -- after any further history that does not Put/Delete the same
+   address -- returns exactly the stored credential, whatever order Go's map
+   iteration takes (every candidate answer is the stored credential). *)
+Theorem C18_roundtrip :
+  forall (enc : str -> str) (dec : str -> option str),
+    (forall s, dec (enc s) = Some s) -> (forall s, enc s = [] -> s = []) ->
+    forall st a c h,
+      contains colon (c_user c) = false ->
+      (forall o, In o h -> ~ writes a o) ->
+      snd (step enc dec st (Put a c)) = ROk /\
+      get_candidates dec (cache_of (run enc dec (fst (step enc dec st (Put a c))) h)) a = [RCred c] /\
+      snd (step enc dec (run enc dec (fst (step enc dec st (Put a c))) h) (Get a)) = RCred c.
+Proof. exact roundtrip. Qed.
+Print Assumptions C18_roundtrip.
+
+(* a colon in the username is refused and nothing changes *)
+Theorem C18_colon_refused :
+  forall (enc : str -> str) (dec : str -> option str) st a c,
+    contains colon (c_user c) = true -> step enc dec st (Put a c) = (st, RErrBadCred).
+Proof. exact put_refused. Qed.
+Print Assumptions C18_colon_refused.
+
+(* Delete removes exactly the entry keyed by the address, in memory and in the file *)
+Theorem C18_delete_local :
+  forall (enc : str -> str) (dec : str -> option str) st a,
+    let st' := fst (step enc dec st (Delete a)) in
+    snd (step enc dec st (Delete a)) = ROk /\
+    lookup a (cache_of st') = None /\
+    (forall a', a' <> a -> lookup a' (cache_of st') = lookup a' (cache_of st)) /\
+    (lookup a (cache_of st) = None -> st' = st) /\
+    (lookup a (cache_of st) <> None ->
+       file_top configFieldAuths (st_file st') = Some (TAuths (cache_of st')) /\
+       file_entry a (st_file st') = None /\
+       forall a', a' <> a -> file_entry a' (st_file st') = lookup a' (cache_of st)).
+Proof. exact delete_local. Qed.
+Print Assumptions C18_delete_local.
+
+(* after Delete, Get answers the empty credential unless a legacy key of the
+   same host (https://host/, http://host/v1/ ...) is still in the file *)
+Theorem C18_delete_then_get :
+  forall (enc : str -> str) (dec : str -> option str) st a,
+    (forall k e, In (k, e) (cache_of st) -> k <> a -> to_hostname k <> a) ->
+    get_candidates dec (cache_of (fst (step enc dec st (Delete a)))) a = [RCred empty_cred].
+Proof. exact delete_then_get. Qed.
+Print Assumptions C18_delete_then_get.
+
+(* every pre-existing document the store opens, every history: all other
+   top-level keys, a configured credsStore and every auths entry that no
+   operation addressed are in the file exactly as they were (values are opaque:
+   unknown fields included) *)
+Theorem C18_preserves_rest :
+  forall (enc : str -> str) (dec : str -> option str) f st0 h,
+    open_store f = Some st0 ->
+    let stf := run enc dec st0 h in
+    (forall k, k <> configFieldAuths -> k <> configFieldCredentialsStore ->
+               file_top k (st_file stf) = file_top k f) /\
+    (forall s, s <> [] -> file_top configFieldCredentialsStore f = Some (TCs s) ->
+               file_top configFieldCredentialsStore (st_file stf) = Some (TCs s)) /\
+    (forall a, (forall o, In o h -> ~ writes a o) ->
+               file_entry a (st_file stf) = file_entry a f).
+Proof. exact preserves_rest. Qed.
+Print Assumptions C18_preserves_rest.
+
+(* the file left by any history loads again and yields a store with the same
+   entries (the secrets really are in the file) *)
+Theorem C18_reopen :
+  forall (enc : str -> str) (dec : str -> option str) f st0 h,
+    open_store f = Some st0 ->
+    exists st1, open_store (st_file (run enc dec st0 h)) = Some st1 /\
+                cache_of st1 = cache_of (run enc dec st0 h) /\
+                m_cs (st_mem st1) = m_cs (st_mem (run enc dec st0 h)).
+Proof. exact reopen. Qed.
+Print Assumptions C18_reopen.
+
+(* saveFile at every crash point: for every file system, every new content cut
+   into arbitrary write chunks and every crash cut (between two system calls or
+   inside a write) the config path holds the complete old or the complete new
+   file, no other file changes, and the ingest file is absent or a prefix of
+   the new content with mode 0600 *)
+Theorem C18_atomic :
+  forall (dir p t : path) (chunks : list str),
+    t <> p ->
+    forall s pre,
+    fget t s = None ->
+    crash_cut (save_steps dir p t chunks) pre ->
+    let s' := exec_all s pre in
+    (fget p s' = fget p s \/
+     fget p s' = Some {| f_data := concat chunks; f_mode := mode_file |}) /\
+    (forall q, q <> p -> q <> t -> fget q s' = fget q s) /\
+    (fget t s' = None \/ exists d, temp_is t d s' /\ is_prefix d (concat chunks)).
+Proof. exact save_atomic. Qed.
+Print Assumptions C18_atomic.
+
+(* the completed save: new content, owner-only mode, no ingest file left *)
+Theorem C18_save_complete :
+  forall (dir p t : path) (chunks : list str),
+    t <> p ->
+    forall s,
+    fget t s = None ->
+    let s' := exec_all s (save_steps dir p t chunks) in
+    fget p s' = Some {| f_data := concat chunks; f_mode := mode_file |} /\
+    fget t s' = None /\
+    (forall q, q <> p -> q <> t -> fget q s' = fget q s).
+Proof. exact save_complete. Qed.
+Print Assumptions C18_save_complete.
+
+(* hypotheses are satisfiable / the statements are not vacuous *)
+Example C18_example_roundtrip :
+  let c := {| c_user := b "user"; c_pass := b "pa:ss"; c_refresh := b "rt"; c_access := [] |} in
+  let st := fst (step b64_encode b64_decode {| st_mem := empty_mem; st_file := None |} (Put (b "reg.io") c)) in
+  snd (step b64_encode b64_decode st (Get (b "reg.io"))) = RCred c /\
+  file_entry (b "reg.io") (st_file st) = Some (Fresh (b "dXNlcjpwYTpzcw==") (b "rt") []).
+Proof. vm_compute. split; reflexivity. Qed.
+
+Example C18_example_atomic :
+  let s := {| fs_files := [(b "cfg", {| f_data := b "old"; f_mode := 420 |})]; fs_dirs := [] |} in
+  let steps := save_steps (b "d") (b "cfg") (b "tmp") [b "ne"; b "w"] in
+  crash_cut steps (cut_at steps 4 1) /\
+  fget (b "cfg") (exec_all s (cut_at steps 4 1)) = Some {| f_data := b "old"; f_mode := 420 |} /\
+  fget (b "tmp") (exec_all s (cut_at steps 4 1)) = Some {| f_data := b "new"; f_mode := mode_file |} /\
+  fget (b "cfg") (exec_all s steps) = Some {| f_data := b "new"; f_mode := mode_file |}.
+Proof.
+  split; [|vm_compute; repeat split; reflexivity].
+  vm_compute. do 4 apply cut_later. apply (cut_partial _ [119] []).
+Qed.
